@@ -346,6 +346,7 @@ func replayMain(args []string) int {
 		fmt.Println(err)
 		return 2
 	}
+	os.MkdirAll("/verif/.work", 0o755)
 	wd, _ := os.MkdirTemp("/verif/.work", "rp")
 	defer os.RemoveAll(wd)
 	res := replayBatch([]*replayFile{&rf}, wd)
